@@ -64,10 +64,17 @@ class CFG:
         return [(s, k) for k, s in enumerate(self.blocks[b]["s"]) if s is not None]
 
     def cond(self, b):
+        """the expression whose value selects the successor of block b.  For a statement terminator whose
+        condition is `x && y` / `x || y`, this block is reached only after the left operands were decided, so
+        the deciding value is the right-most operand."""
         tc = self.blocks[b].get("tc")
         if tc is None or tc < 0:
             return None
-        return self.nodes.get(tc)
+        n = self.nodes.get(tc)
+        if self.blocks[b].get("t") != "BinaryOperator":
+            while n is not None and n["k"] == "BinOp" and n.get("op") in ("&&", "||"):
+                n = n["c"][1]
+        return n
 
     # ---- generic search ------------------------------------------------------------------
     def search(self, start, is_target=None, is_barrier=None, edge_ok=None, to_exit=False,
@@ -115,6 +122,131 @@ class CFG:
                     continue
                 q.append((s, 0, key))
         return None
+
+    # ---- path consistency on repeated stable conditions -------------------------------------
+    def stable_vars(self):
+        """decl ids of parameters / locals that are never re-assigned after their initialisation (and whose
+        address is never taken): a branch condition over them has one value during one execution."""
+        if getattr(self, "_stable", None) is not None:
+            return self._stable
+        written = {}
+        addr = set()
+        decls = set()
+        for n in self.f.walk():
+            k = n["k"]
+            if k == "VarDecl":
+                decls.add(n["d"])
+                written[n["d"]] = written.get(n["d"], 0) + 1
+            elif k == "Assign":
+                l = (n.get("c") or [None])[0]
+                if l is not None and l["k"] == "DeclRefExpr":
+                    written[l["d"]] = written.get(l["d"], 0) + 2
+            elif k == "UnOp" and n.get("op") in ("++", "--", "post++", "post--", "&"):
+                x = (n.get("c") or [None])[0]
+                if x is not None and x["k"] == "DeclRefExpr":
+                    addr.add(x["d"])
+        for p in self.f.params:
+            decls.add(p["d"])
+        # loop variables declared inside a loop body are re-initialised each iteration: keep only top-level
+        # single definitions; a VarDecl inside a loop counts as multiple definitions
+        inloop = set()
+        for n in self.f.walk():
+            if n["k"] in ("For", "While", "Do", "ForRange"):
+                for x in walk(n):
+                    if x["k"] == "VarDecl":
+                        inloop.add(x["d"])
+        self._stable = {d for d in decls if written.get(d, 0) <= 1 and d not in addr and d not in inloop}
+        return self._stable
+
+    def stable_key(self, core):
+        """a canonical string for a branch condition that only reads stable variables and literals, else None"""
+        if core is None:
+            return None
+        st = self.stable_vars()
+        for x in walk(core):
+            k = x["k"]
+            if k == "DeclRefExpr":
+                if x.get("dk") == "enum":
+                    continue
+                if x.get("d") not in st:
+                    return None
+            elif k in ("Int", "Float", "Bool", "BinOp", "UnOp", "Null", "Cast"):
+                if k == "UnOp" and x.get("op") not in ("!", "-"):
+                    return None
+            else:
+                return None
+        return show(core)
+
+    def search_consistent(self, start, is_target=None, is_barrier=None, edge_ok=None, to_exit=False, _assume=None, _depth=0):
+        """like search(), but a witness on which one stable condition takes both truth values is discarded:
+        the search is re-run under each assumption on that condition."""
+        assume = dict(_assume or {})
+
+        def eo(blk, k, s):
+            if edge_ok and not edge_ok(blk, k, s):
+                return False
+            if assume and len(blk["s"]) == 2:
+                c = self.cond(blk["b"])
+                if c is not None:
+                    core, pol = peel_cond(c)
+                    key = self.stable_key(core)
+                    if key in assume:
+                        return ((k == 0) == pol) == assume[key]
+            return True
+        wit = self.search(start, is_target=is_target, is_barrier=is_barrier, edge_ok=eo, to_exit=to_exit)
+        if wit is None or _depth >= 6:
+            return wit
+        seen = {}
+        bl = wit["blocks"]
+        for a, b in zip(bl, bl[1:]):
+            blk = self.blocks[a]
+            if len(blk["s"]) != 2:
+                continue
+            c = self.cond(a)
+            if c is None:
+                continue
+            core, pol = peel_cond(c)
+            key = self.stable_key(core)
+            if key is None:
+                continue
+            if blk["s"][0] == blk["s"][1]:
+                continue
+            truth = (blk["s"].index(b) == 0) == pol
+            if key in seen and seen[key] != truth:
+                for v in (True, False):
+                    a2 = dict(assume)
+                    a2[key] = v
+                    w = self.search_consistent(start, is_target, is_barrier, edge_ok, to_exit, a2, _depth + 1)
+                    if w is not None:
+                        return w
+                return None
+            seen[key] = truth
+        return wit
+
+    def implied_at(self, node):
+        """stable conditions whose value is forced on every path from the entry to `node`"""
+        keys = set()
+        for b in self.blocks.values():
+            if len(b["s"]) != 2:
+                continue
+            c = self.cond(b["b"])
+            if c is None:
+                continue
+            core, pol = peel_cond(c)
+            k = self.stable_key(core)
+            if k:
+                keys.add(k)
+        out = {}
+        tp = self.pos_of(node)
+        if tp is None:
+            return out
+        tid = self.blocks[tp[0]]["e"][tp[1]]
+        for k in keys:
+            for v in (True, False):
+                w = self.search_consistent(self.entry_pos(), is_target=lambda n: n["i"] == tid, _assume={k: v})
+                if w is None:
+                    out[k] = not v
+        return out
 
     def _chain(self, parent, key):
         out = []
@@ -242,10 +374,7 @@ def edge_passes(cfgobj, blk, k, is_gate_true, is_gate_false=None):
     """For the edge #k out of blk: returns 'pass' when the edge asserts that a gate holds
     (is_gate_true(core) on the edge where core is true, or is_gate_false(core) on the edge where
     core is false), 'fail' for the opposite edge of a gate test, None for edges that say nothing."""
-    tc = blk.get("tc")
-    if tc is None or tc < 0:
-        return None
-    c = cfgobj.nodes.get(tc)
+    c = cfgobj.cond(blk["b"])
     if c is None:
         return None
     core, pol = peel_cond(c)
